@@ -157,6 +157,7 @@ def cmdFitCert (j : Json) : R Json := do
     let jn := (List.range m).map fun k => Float.sqrt (fsum n fun i =>
       ((Jm i k).v / (s i).v) * ((Jm i k).v / (s i).v))
     let rn := Float.sqrt (fsum n fun i => ((r i).v / (s i).v) * ((r i).v / (s i).v))
+    let yn := Float.sqrt (fsum n fun i => ((y i).v / (s i).v) * ((y i).v / (s i).v))
     let S := objectiveNL e n m x y s p
     let Ntab : Array (Array Float) := Array.ofFn (n := m) fun k => Array.ofFn (n := m) fun l =>
       fsum n fun i => (Jm i k.val).v * (Jm i l.val).v / ((s i).v * (s i).v)
@@ -167,7 +168,7 @@ def cmdFitCert (j : Json) : R Json := do
     pure (obj [("n", (n : Nat)), ("sel", Json.arr (sel.map fun (i : Nat) => (i : Json)).toArray),
       ("hasYerr", hy), ("hasXerr", hx), ("S", putFB S),
       ("grad", Json.arr (g.map putFB).toArray), ("jn", Json.arr (jn.map putF).toArray),
-      ("rn", putF rn), ("s", Json.arr ((List.range n).map fun i => putFB (s i)).toArray),
+      ("rn", putF rn), ("yn", putF yn), ("s", Json.arr ((List.range n).map fun i => putFB (s i)).toArray),
       ("res", Json.arr ((List.range n).map fun i => putFB (r i)).toArray),
       ("cov", putMatF m inv), ("kappa", putF kappa), ("invok", ok),
       ("step", Json.arr (step.map putF).toArray)])
